@@ -550,11 +550,27 @@ func (p *proxyObject) proxyGetOwnPropertyDescriptor(targetProp Value, target *Ob
 		}
 	}
 
+	// the result is the completed descriptor (not a second reading of the trap result object)
+	if resultDesc.IsAccessor() {
+		prop := &valueProperty{
+			accessor:     true,
+			configurable: resultDesc.Configurable == FLAG_TRUE,
+			enumerable:   resultDesc.Enumerable == FLAG_TRUE,
+		}
+		prop.getterFunc, _ = resultDesc.Getter.(*Object)
+		prop.setterFunc, _ = resultDesc.Setter.(*Object)
+		return prop
+	}
 	if resultDesc.Writable == FLAG_TRUE && resultDesc.Configurable == FLAG_TRUE &&
 		resultDesc.Enumerable == FLAG_TRUE {
 		return resultDesc.Value
 	}
-	return r.toValueProp(trapResultObj)
+	return &valueProperty{
+		value:        resultDesc.Value,
+		writable:     resultDesc.Writable == FLAG_TRUE,
+		configurable: resultDesc.Configurable == FLAG_TRUE,
+		enumerable:   resultDesc.Enumerable == FLAG_TRUE,
+	}
 }
 
 func (p *proxyObject) getOwnPropStr(name unistring.String) Value {
